@@ -189,7 +189,9 @@ func execute(t *testing.T, x any, s hx.Sched) *hx.Outcome {
 	case "corpus":
 		return execCorpus(t, w)
 	case "genproc":
-		f, err := os.CreateTemp(filepath.Join(root(), "tests"), "gen-*.php")
+		// (not under tests/: the corpus listing of other workers must not see it)
+		os.MkdirAll(filepath.Join(root(), "genprogs"), 0o755)
+		f, err := os.CreateTemp(filepath.Join(root(), "genprogs"), "gen-*.php")
 		if err != nil {
 			o := &hx.Outcome{}
 			o.Inconclusive++
@@ -199,12 +201,12 @@ func execute(t *testing.T, x any, s hx.Sched) *hx.Outcome {
 		f.Close()
 		defer os.Remove(f.Name())
 		c := *w
-		c.File = filepath.Base(f.Name())
+		c.File = "../genprogs/" + filepath.Base(f.Name())
 		o := execCorpus(t, &c)
 		// the temp file name must not leak into signatures or hashes
 		o.Hash = hx.HashStrings(w.Src)
 		for i := range o.Violations {
-			o.Violations[i].Detail = strings.ReplaceAll(o.Violations[i].Detail, c.File, "<generated program>") + " program: " + w.Src
+			o.Violations[i].Detail = strings.ReplaceAll(o.Violations[i].Detail, strings.TrimPrefix(c.File, "../"), "<generated program>") + " program: " + w.Src
 		}
 		if sm, ok := o.Sample.(map[string]any); ok {
 			sm["kind"], sm["file"], sm["program"] = "genproc", "<generated program>", w.Src
@@ -430,7 +432,7 @@ func loadCorpusAll() []string {
 		}
 		rel, _ := filepath.Rel(base, p)
 		b, err := os.ReadFile(p)
-		if err != nil || rel == "run_tests.php" || noChildRe.Match(b) {
+		if err != nil || rel == "run_tests.php" || strings.HasPrefix(filepath.Base(rel), "gen-") || noChildRe.Match(b) {
 			return nil
 		}
 		corpusAll = append(corpusAll, rel)
@@ -454,7 +456,7 @@ func loadCorpus() []string {
 			return nil
 		}
 		rel, _ := filepath.Rel(base, p)
-		if rel == "run_tests.php" || strings.Contains(rel, "fixtures") || strings.Contains(rel, "included") {
+		if rel == "run_tests.php" || strings.Contains(rel, "fixtures") || strings.Contains(rel, "included") || strings.HasPrefix(filepath.Base(rel), "gen-") {
 			return nil
 		}
 		b, err := os.ReadFile(p)
